@@ -18,6 +18,9 @@ R06.8 lane-stack constants agree with the initial stack: a flush manager that te
       `bt unused_lanes, k` uses k = the top bit of the value its init function stores into unused_lanes, and a
       submit manager that tests "no lane free" with `cmp unused_lanes, c` uses c = that value's sentinel (0xF for
       a nibble stack, 0xFF for a byte stack).
+R06.9 one family per CPU class: under the same CPU facts the dispatchers of <algo>_ctx_mgr_init, _submit and _flush
+      bind context layers of the same family (the lane stack, lane count and lens[] layout that init writes are
+      the ones submit and flush of that family expect).
 R06.5 field width: every write at a fixed offset into a scalar field of the manager struct (unused_lanes,
       num_lanes_inuse) starts at the field and has the field's width.
 R06.6 struct mirror: the offsets the assembly uses for job / manager / lane fields (nasm struct symbols) equal the
@@ -241,6 +244,15 @@ def run(chk):
             for k in ("submit", "flush"):
                 for c in used.get(k, ()):
                     lane_init[c] = iv[0]
+    import cands
+    import re as _re
+
+    def group_of(iface):
+        m = _re.match(r"^_(sha1|sha256|sha512|md5|sm3)_ctx_mgr_(init|submit|flush)$", iface)
+        return m.group(1) if m else None
+    ncoh = cands.coherence_rule(chk, "R06.9", lib, ["_sha1_ctx", "_sha256_ctx", "_sha512_ctx", "_md5_ctx", "_sm3_ctx"], group_of,
+                                "the manager state written by one family's init / submit (lane count, unused_lanes stack, lens[] packing) is not the one another family's routines expect")
+    chk.floor("CPU classes x algorithms compared for manager family coherence", ncoh, 30)
     chk.floor("context layers checked for one manager per kind", nfam, 22)
     chk.floor("manager functions with a known initial lane stack", len(lane_init), 30)
     res = par.map_objects(lib, asm_worker, objs, extra={"structs": structs, "lane_init": lane_init})
